@@ -21,7 +21,7 @@ EXHAUSTIVE_SUBDOMAINS = ["every raw value x status x sign of the 29 tabulated fi
                          "temp44 sign x 0..1023", "cap17 each of the 24 capability bits alone and random subsets"]
 ASSUMPTIONS = ["field layouts transcribed from ICAO Doc 9871 (Appendix A tables) into pmv/ref/commb.py",
                "float results compared within 1e-9"]
-REQUIRED = ["field_" + n for n in rc.FIELDS] + ["cap17_redecode_after_caller_edit", "register_shaped_backgrounds", "status0", "status1", "sign1", "wind44", "temp44", "cap17", "ovc10", "identity",
+REQUIRED = ["field_" + n for n in rc.FIELDS] + ["cap17_redecode_after_caller_edit", "register_shaped_backgrounds", "foreign_register_shaped_backgrounds", "background_still_shaped_like_bds20", "status0", "status1", "sign1", "wind44", "temp44", "cap17", "ovc10", "identity",
                                                 "noninterference", "alias"]
 
 
@@ -95,6 +95,31 @@ def m_field(ctx, case):
                             ctx.violation("field-wrong-on-register-shaped-background-" + name, frame=hx, background=flavour, fs=fs_,
                                           status=st_, raw=raw, expected=exp, observed=r[1:])
             ctx.hit("register_shaped_backgrounds")
+        # backgrounds shaped like a valid register of ANOTHER type (an identification, a capability report, a track-and-turn
+        # report ...): a decoder that first asks "does this payload look like something else?" answers None there
+        if raw % case["flip_every"] == 0:
+            from . import C12 as p12
+            legal = set(p12.LEGAL6)
+            for bname, mkbg in (("10", p12.b10), ("17", p12.b17), ("20", p12.b20), ("30", p12.b30), ("40", p12.b40), ("44", p12.b44),
+                                ("45", p12.b45), ("50", p12.b50), ("60", lambda r_: p12.b60(r_, 21)[0])):
+                if mod.endswith(bname):
+                    continue
+                for st_ in ((0, 1) if sb is not None else (1,)):
+                    sg_ = rng.randrange(2) if gb is not None else 0
+                    for _try in range(40):
+                        mb = rc.place(mkbg(rng), name, st_, sg_, raw)
+                        # keep the foreign shape where the field under test allows it (BDS 2,0: still eight legal characters)
+                        if bname != "20" or (mb >> 48 == 0x20 and all(((mb >> (42 - 6 * q_)) & 63) in legal for q_ in range(8))):
+                            ctx.hit("background_still_shaped_like_bds" + bname)
+                            break
+                    exp = rc.expected(name, st_, sg_, raw)
+                    hx = "%028X" % bits.commb_frame(rng.choice((20, 21)), rng.getrandbits(27), mb, rng.choice((0, rng.getrandbits(24))))
+                    r = call(fn, hx)
+                    ctx.ev()
+                    if r[0] != "ok" or not same(r[1], exp):
+                        ctx.violation("field-wrong-on-background-shaped-like-another-register-" + name, frame=hx, background="BDS" + bname,
+                                      status=st_, raw=raw, expected=exp, observed=r[1:])
+            ctx.hit("foreign_register_shaped_backgrounds")
         # non-interference on this raw value: flip a few bits outside the field (MB, header, parity)
         if raw % case["flip_every"] == 0:
             mb = rc.place(rng.fill(56), name, 1, rng.randrange(2), raw)
